@@ -150,6 +150,58 @@ def chain_case(rng, mode, hazard=True, trace=30, run=300, dspec="-", ispec="-", 
     return Case(suite, lines, None, {"mode": mode, "hazard": hazard, "prog": prog, "regs": regs, "pokes": pokes, "d": dspec, "i": ispec})
 
 
+def ecall_program(rng):
+    """Programs made of environment calls of every documented code (print int / string / char / hex / bin / unsigned,
+    exit with and without status) with their arguments set up in the program itself; the print-string argument is a
+    string poked into data memory (1..9 characters, at a word boundary or not, possibly across cache blocks); loads and
+    stores near the string in between, so that parts of it are cached when it is printed. Ends with an exit call."""
+    prog, pokes = [], []
+    soff = rng.choice([0, 1, 3, 4, 6, 13, 30])
+    slen = rng.choice([1, 2, 4, 5, 9])
+    for j in range(slen):
+        pokes.append((DATA + soff + j, rng.choice([65, 66, 97, 48, 126, 32])))
+    pokes.append((DATA + soff + slen, 0))
+    k = rng.choice([1, 2, 3, 4])
+    for _ in range(k):
+        code = rng.choice([4, 4, 4, 1, 11, 34, 35, 36, 4, 2])
+        if rng.random() < 0.4:
+            op = rng.choice(["lw", "lbu", "sw", "sb", "lh"])
+            off = rng.choice([0, 4, 8, 12, 16, 32])
+            prog.append(tok(op, 5, 2, 0, off) if op[0] == "l" else tok(op, 0, 2, 5, off))
+        prog.append(tok("addi", 17, 0, 0, code))
+        if code == 4:
+            prog.append(tok("addi", 10, 2, 0, soff + rng.choice([0, 0, 0, 1])))
+        elif rng.random() < 0.7:
+            prog.append(tok("addi", 10, 0, 0, rng.choice([65, -1, 0, 2047, 10])))
+        prog.append(tok("ecall"))
+    prog.append(tok("addi", 17, 0, 0, rng.choice([10, 93, 93])))
+    prog.append(tok("ecall"))
+    if rng.random() < 0.5:
+        prog.append(tok("addi", 5, 5, 0, 1))          # younger than the exiting ecall: must not execute
+    regs = {2: DATA, 5: rng.choice([0, 0x41424344, 0xFFFFFFFF]), 10: rng.choice([0, 7, 0x80000000])}
+    return prog, regs, pokes
+
+
+def ecall_case(rng, mode, hazard=True, trace=40, run=400, dspec="-", ispec="-", suite="sim-ecall"):
+    prog, regs, pokes = ecall_program(rng)
+    lines = header(mode, hazard, dspec, ispec, prog, regs, pokes)
+    lines.append("sim.snap")
+    for _ in range(trace):
+        lines += ["sim.step", "sim.snap"]
+    lines += [f"sim.run {run}", "sim.snap"]
+    return Case(suite, lines, None, {"mode": mode, "hazard": hazard, "prog": prog, "regs": regs, "pokes": pokes, "d": dspec, "i": ispec})
+
+
+def penalty_cache_spec(rng, kind):
+    """a cache with a miss penalty > 0 (small geometries, so that evictions happen)"""
+    pol = rng.choice(["lru", "plru"])
+    assoc = rng.choice([1, 2, 3] if pol == "lru" else [1, 2, 4])
+    ib, bb, pen = rng.choice([0, 1]), rng.choice([0, 1, 2]), rng.choice([1, 2, 5, 13])
+    if kind == "d":
+        return f"{rng.choice(['wt', 'wb'])},{pol},{ib},{bb},{assoc},{pen}"
+    return f"{pol},{ib},{bb},{assoc},{pen}"
+
+
 def cache_spec(rng, kind, prob=0.5):
     if rng.random() > prob:
         return "-"
